@@ -148,7 +148,7 @@ def splice_fn(text, item, name, problems):
         text = text.replace("__K2V_LOOP_%d_SPEC__" % k, ("\n" + "\n".join(lp["spec"]) + "\n") if lp["spec"] else "")
         text = text.replace("__K2V_LOOP_%d_BODY_START_S__;" % k, "\n".join(lp["body_start"]))
         text = text.replace("__K2V_LOOP_%d_BODY_END_S__;" % k, "\n".join(lp["body_end"]))
-        text = text.replace("__K2V_LOOP_%d_AFTER_S__;" % k, "\n".join(lp["after"]))
+        text = text.replace("__K2V_LOOP_%d_AFTER_S__;" % k, "\n".join(lp["after"]) if lp["after"] else ";")
     return text, len(loops_present)
 
 
